@@ -238,8 +238,11 @@ func genSingle(r *vh.RNG, op byte) *tcase {
 		args[i] = operand(r)
 	}
 	// make the interesting first operand small more often for index-like operands
-	if (op == 0x0b || op == 0x1a || op >= 0x1b) && r.Chance(50) {
-		args[0] = big.NewInt(int64(r.Intn(300)))
+	if (op == 0x0b || op == 0x1a) && r.Chance(60) {
+		args[0] = big.NewInt(int64(r.Intn(35))) // byte indexes around the 31/32 boundary
+	}
+	if op >= 0x1b && r.Chance(60) {
+		args[0] = big.NewInt(int64([]int{r.Intn(300), 255, 256, 257, r.Intn(9), 64 * r.Intn(5)}[r.Intn(6)]))
 	}
 	if (op == 0x08 || op == 0x09) && r.Chance(10) {
 		args[2] = big.NewInt(0)
